@@ -633,3 +633,7 @@ M("m121", "C12", "R12.7", CKPT, "        if checkpoint_frequency is not None:\n 
   "restore(): an explicit checkpoint_frequency=0 override is falsy and dropped - from seeded change C12c")
 M("m122", "C06", "R6.4", SAVI, "        self.key = random.PRNGKey(self.config.random_seed)", "        self.key = random.PRNGKey(self.config.random_seed or 12345)",
   "seed 0 silently replaced (x or default) - after seeded change C06c")
+M("m123", "C20", "R20.11", VI, "        new_values = self._unbatch_results(padded_batched_values)\n        return new_values\n",
+  "        new_values = self._unbatch_results(padded_batched_values)\n        return new_values.astype(values.dtype)\n",
+  "sweep result cast to the dtype of the incoming estimates (positive example of the zero-count rule)")
+M("m124", "C20", "R20.11", RVI, "        self.gain = 0.0\n", "        self.gain = jnp.zeros((), dtype=jnp.float32)\n", "RVI gain held in float32")
